@@ -18,6 +18,8 @@ Import ListNotations.
 Open Scope bool_scope.
 Open Scope Z_scope.
 
+Module ScanM.
+
 Record env := mkEnv {
   e_decode : str -> Z * Z;      (* utf8.DecodeRuneInString *)
   e_letter : Z -> bool;         (* unicode.IsLetter *)
@@ -239,3 +241,6 @@ Fixpoint read_n_loop (n : nat) (start : Z) (s : state) : res range :=
 Definition read_n (n : nat) (s : state) : res range := read_n_loop n (off s) s.
 
 End WithEnv.
+
+End ScanM.
+Export ScanM.
